@@ -20,7 +20,7 @@ cp $SRC/meta.json $OUT/meta.agent.json 2>/dev/null
 [ -d $SEEDREPO ] || git -C /repo worktree add --detach $SEEDREPO >/dev/null 2>&1
 git -C $SEEDREPO checkout -q --detach $(git -C /repo rev-parse HEAD); git -C $SEEDREPO checkout -q -- .; cp /repo/Cargo.lock $SEEDREPO/ 2>/dev/null
 if [ ! -d $SEEDVERIF ]; then git -C /verif worktree add --detach $SEEDVERIF >/dev/null 2>&1; fi
-git -C $SEEDVERIF checkout -q --detach $(git -C /verif rev-parse HEAD)
+git -C $SEEDVERIF checkout -q -f --detach $(git -C /verif rev-parse HEAD)
 if [ ! -x $SEEDVERIF/lean/.lake/build/bin/geodriver ]; then (cd $SEEDVERIF && GEO_REPO=$SEEDREPO ./setup.sh > $OUT/setup.log 2>&1); fi
 cd $SEEDREPO
 mkdir -p geo/tests; cp $OUT/demo.rs geo/tests/mut_demo.rs
